@@ -169,6 +169,28 @@ def run(ctx) -> list[Inst]:
                 file=rel, line=e.lineno, props=('C16',)))
         else:
             insts.append(Inst(RULE, wn, construct, 'ok', file=rel, line=f.node.lineno, props=('C16',)))
+    # ---------------------------------------------------------------- LABELS
+    # only the apriori evaluation / propagation (and loading, copying, construction) assign viability and
+    # necessity labels: pruning and node removal must leave the labels of the remaining nodes as they are
+    for fn in ('prune_unviable_and_unnecessary_nodes', 'AttackGraph.remove_node', 'AttackGraph.remove_attacker',
+               'Attacker.compromise', 'Attacker.undo_compromise'):
+        f = prog.func(fn)
+        facts = an.of(f)
+        offending = [e for e in facts.effects if e.path.steps and e.path.steps[-1] in ('is_viable', 'is_necessary')]
+        construct = 'LABELS: no assignment to is_viable / is_necessary is reachable'
+        lp = tuple(dict.fromkeys(('C13',) + tuple(props_for(f.short, f.module.relpath))))
+        if offending:
+            e = offending[0]
+            insts.append(Inst(
+                RULE, f.short, construct, 'violation',
+                msg=(f"'{e.text}' ({e.func}:{e.lineno}) is reachable from {fn}: labels of nodes that stay in the "
+                     f"graph are rewritten (pruning must leave every remaining node with its labels unchanged; "
+                     f"re-running the analysis on the pruned graph re-labels steps whose pruned parents made them "
+                     f"necessary)"),
+                file=f.module.relpath, line=f.node.lineno, props=lp))
+        else:
+            insts.append(Inst(RULE, f.short, construct, 'ok', msg=f'{len(facts.effects)} transitive effects examined',
+                              file=f.module.relpath, line=f.node.lineno, props=lp))
     # ---------------------------------------------------------------- PURE (R11)
     qmod = prog.module('maltoolbox/attackgraph/query.py')
     for f in qmod.functions.values():
